@@ -34,8 +34,10 @@ def main():
         from geomdl import operations
         c = curve(rng)
         pts0 = c.evaluate_list([i / 10. for i in range(11)])
-        for _ in range(6):
-            operations.insert_knot(c, [rng.choice([0.1, 0.3, 0.3, 0.6, 0.9])], [1])
+        seq = [0.1, 0.3, 0.3, 0.6, 0.9, 0.3]        # no value more often than the degree (3) allows
+        rng.shuffle(seq)
+        for x in seq:
+            operations.insert_knot(c, [x], [1])
         operations.remove_knot(c, [0.3], [1])
         operations.refine_knotvector(c, [1])
         out['kv'] = list(c.knotvector); out['cp'] = c.ctrlpts
@@ -51,6 +53,18 @@ def main():
             c.sample_size = n
             m = len(c.evalpts)
             if m != n or c.sample_size != n:
+                bad.append([n, m])
+        s_ = surface(random.Random(2))
+        for n in range(lo, min(hi, 130) + 1):
+            s_.sample_size_u = n
+            s_.sample_size_v = 3
+            m = len(s_.evalpts)
+            if m != n * 3:
+                bad.append([n, m])
+            s_.sample_size_u = 3
+            s_.sample_size_v = n
+            m = len(s_.evalpts)
+            if m != n * 3:
                 bad.append([n, m])
         out['bad'] = bad
     elif scenario == 'tessellate':
